@@ -43,7 +43,7 @@ RULE = ("histories over %d symbolic operations (append/insert/delete by index an
         "(operation kind, resolved position) ; non-trivial = history with >= 2 operations that leaves >= 2 curves"
         % len(OPS))
 ASSUMPTIONS = [
-    "session names are read from the real object and only checked against the pattern ORIGINAL[:n] (C13 decides the numbering)",
+    "session names (keys) are predicted by the model with the documented rule: renumbered :1..:n in order after each insertion and after set_data, left alone by deletions and updates",
     "set_data() is only given 2-D arrays at least as wide as the curve list; names of curves beyond the end of a too-short names= list are don't-care",
     "where the plain list model raises (position out of range, missing mnemonic) lasio must raise too and leave the curves unchanged",
 ]
@@ -100,8 +100,26 @@ class Model:
         self.c = []   # dicts: orig, unit, value, descr, data
 
     def snapshot_from(self, las):
-        self.c = [{"orig": it.original_mnemonic, "unit": it.unit, "value": it.value, "descr": it.descr,
+        self.c = [{"orig": it.original_mnemonic, "sess": it.mnemonic, "unit": it.unit, "value": it.value, "descr": it.descr,
                    "data": np.array(it.data, copy=True)} for it in secops.raw_items(las.curves)]
+
+
+def useful(o):
+    return "UNKNOWN" if str(o).strip() == "" else o
+
+
+def renumber(m, u, norm):
+    """Session-name rule of the documentation: a name shared by n > 1 items is numbered :1..:n in order."""
+    fam = [e for e in m if e["orig"] is not None and (useful(e["orig"]).upper() == u.upper() if norm else useful(e["orig"]) == u)]
+    if len(fam) > 1:
+        for i, e in enumerate(fam):
+            e["sess"] = "%s:%d" % (useful(e["orig"]), i + 1)
+
+
+def m_insert(m, ix, entry, norm):
+    entry["sess"] = useful(entry["orig"])
+    m.insert(ix, entry)
+    renumber(m, useful(entry["orig"]), norm)
 
 
 class Run:
@@ -117,6 +135,7 @@ class Run:
             self.partner = lasio.LASFile()
             self.partner.append_curve("DEPT", np.arange(NROWS) + 0.5, unit="m")
             self.partner.append_curve("P", np.arange(NROWS) + 70.0)
+        self.norm = bool(self.las.curves.mnemonic_transforms)
         self.m = Model()
         self.m.snapshot_from(self.las)
         self.partner_snap = canon.clas(self.partner)
@@ -143,7 +162,7 @@ class Run:
         return n // 2 if code == "mid" else code
 
     def keys(self):
-        return [it.mnemonic for it in secops.raw_items(self.las.curves)]
+        return [e["sess"] for e in self.m.c]
 
     def key_at(self, which):
         ks = self.keys()
@@ -171,12 +190,12 @@ class Run:
             if kind == "append":
                 nm, a = self.name(op[1]), self.arr()
                 resolved = ("append", op[1])
-                m.append({"orig": nm, "unit": "u%d" % self.k, "value": "v", "descr": "d%d" % self.k, "data": a.copy()})
+                m_insert(m, len(m), {"orig": nm, "unit": "u%d" % self.k, "value": "v", "descr": "d%d" % self.k, "data": a.copy()}, self.norm)
                 las.append_curve(nm, a, unit="u%d" % self.k, descr="d%d" % self.k, value="v")
             elif kind == "insert":
                 ix, nm, a = self.pos(op[1], n), self.name(op[2]), self.arr()
                 resolved = ("insert", _cls(ix, n), op[2])
-                m.insert(ix, {"orig": nm, "unit": "", "value": "", "descr": "i%d" % self.k, "data": a.copy()})
+                m_insert(m, ix, {"orig": nm, "unit": "", "value": "", "descr": "i%d" % self.k, "data": a.copy()}, self.norm)
                 las.insert_curve(ix, nm, a, descr="i%d" % self.k)
             elif kind == "delete_ix":
                 ix = self.pos(op[1], n)
@@ -229,7 +248,9 @@ class Run:
                 resolved = ("replace", _cls(ix, n), op[2])
                 new = {"orig": nm, "unit": "r", "value": "", "descr": "r%d" % self.k, "data": a.copy()}
                 try:
-                    m[ix] = new
+                    pos_ix = range(len(m))[ix]
+                    m.pop(pos_ix)
+                    m_insert(m, pos_ix, new, self.norm)
                 except IndexError:
                     expect_raise = True
                 las.replace_curve_item(ix, self.lasio.CurveItem(nm, "r", "", "r%d" % self.k, a))
@@ -237,7 +258,7 @@ class Run:
                 a = self.arr()
                 if op[1] == "newkey":
                     key = self.name("new")
-                    m.append({"orig": key, "unit": "", "value": "", "descr": "", "data": a.copy()})
+                    m_insert(m, len(m), {"orig": key, "unit": "", "value": "", "descr": "", "data": a.copy()}, self.norm)
                 else:
                     key = self.key_at(op[1])
                     if key is None:
@@ -249,7 +270,7 @@ class Run:
                 a = self.arr()
                 if op[1] == "newkey":
                     key = self.name("new")
-                    m.append({"orig": key, "unit": "si", "value": "", "descr": "s%d" % self.k, "data": a.copy()})
+                    m_insert(m, len(m), {"orig": key, "unit": "si", "value": "", "descr": "s%d" % self.k, "data": a.copy()}, self.norm)
                     item = self.lasio.CurveItem(key, "si", "", "s%d" % self.k, a)
                 else:
                     key = self.key_at(op[1])
@@ -258,7 +279,8 @@ class Run:
                     ix = self.first_index_of_key(key)
                     # the CurveItem must carry the key as its (session) mnemonic
                     item = self.lasio.CurveItem(key, "si", "", "s%d" % self.k, a)
-                    m[ix] = {"orig": key, "unit": "si", "value": "", "descr": "s%d" % self.k, "data": a.copy()}
+                    m.pop(ix)
+                    m_insert(m, ix, {"orig": key, "unit": "si", "value": "", "descr": "s%d" % self.k, "data": a.copy()}, self.norm)
                 resolved = ("setitem_item", op[1])
                 las[key] = item
             elif kind == "set_data":
@@ -284,11 +306,14 @@ class Run:
                     names = ["H%d" % self.k]
                 resolved = ("set_data", width, names_kind, truncate)
                 while len(m) < eff.shape[1]:
-                    m.append({"orig": "", "unit": "", "value": "", "descr": "", "data": np.array([])})
+                    m.append({"orig": "", "sess": "UNKNOWN", "unit": "", "value": "", "descr": "", "data": np.array([])})
                 for i, c in enumerate(m):
                     if names is not None:
                         c["orig"] = names[i] if i < len(names) else None     # None = don't care
                     c["data"] = eff[:, i].copy()
+                    c["sess"] = useful(c["orig"]) if c["orig"] is not None else None     # assigning .mnemonic resets the session name
+                for u in {useful(c["orig"]) for c in m if c["orig"] is not None}:
+                    renumber(m, u, self.norm)
                 self.nrows = rows
                 if width == "df":
                     import pandas as pd
@@ -357,6 +382,8 @@ class Run:
         for i, (it, c) in enumerate(zip(items, m)):
             if c["orig"] is None:
                 c["orig"] = it.original_mnemonic      # don't-care name: adopt what lasio chose
+                for cc, ii in zip(m, items):
+                    cc["sess"] = ii.mnemonic
             if it.original_mnemonic != c["orig"]:
                 V("curve-order-or-name", "curve #%d is %r, model says %r %s" % (i, it.original_mnemonic, c["orig"], tag),
                   {"real": [x.original_mnemonic for x in items], "model": [x["orig"] for x in m]})
@@ -372,6 +399,11 @@ class Run:
         sess = [it.mnemonic for it in items]
         if keys != sess:
             V("keys-view", "keys() = %r, curves carry %r %s" % (keys, sess, tag))
+        want_sess = [c["sess"] for c in m]
+        if sess != want_sess:
+            V("session-names-vs-model", "keys() = %r, the list model (names numbered :1..:n after each insertion) says %r %s" % (keys, want_sess, tag))
+            for cc, ii in zip(m, items):
+                cc["sess"] = ii.mnemonic
         vals = las.values()
         if len(vals) != len(items) or any(v is not it.data for v, it in zip(vals, items)):
             V("values-view", "values() is not the list of the curves' arrays " + tag)
